@@ -46,6 +46,11 @@ type Dir struct {
 	WriteErrAt  int   // the n-th Write (1-based) fails without sending
 	ShortWrite  int   // the n-th Write (1-based) sends only part of its data and fails
 	ZeroReadDen int   // 1/ZeroReadDen of the reads return (0, nil) first; 0 = never
+	// Cap > 0 bounds the bytes in flight (socket buffers): Write blocks while
+	// the direction holds Cap undelivered bytes, like a TCP sender whose peer
+	// does not read.
+	Cap   int
+	space struct{ _ int } // writers blocked on Cap park here
 
 	// Tap, if set, sees every chunk accepted from the writer (before Filter).
 	Tap func(p []byte)
@@ -121,6 +126,9 @@ func (c *Conn) Read(p []byte) (int, error) {
 	copy(p, d.buf[:n])
 	d.buf = d.buf[n:]
 	d.Read += int64(n)
+	if d.Cap > 0 {
+		rt.Wake(&d.space)
+	}
 	return n, nil
 }
 
@@ -167,6 +175,27 @@ func (c *Conn) Write(p []byte) (int, error) {
 		c.resetBoth()
 		return n, werr
 	}
+	if d.Cap > 0 {
+		// bounded buffering: hand the bytes over as room becomes available
+		for len(q) > 0 {
+			for len(d.buf) >= d.Cap {
+				if c.closedLocal || d.reset || d.closed {
+					return n - len(q), io.ErrClosedPipe
+				}
+				rt.Probe("net-write-backpressure")
+				rt.Park(&d.space, "net-write-backpressure "+d.Name)
+			}
+			k := d.Cap - len(d.buf)
+			if k > len(q) {
+				k = len(q)
+			}
+			d.Written += int64(k)
+			d.deliver(q[:k])
+			q = q[k:]
+			rt.Wake(d)
+		}
+		return n, werr
+	}
 	d.Written += int64(n)
 	d.deliver(q)
 	rt.Wake(d)
@@ -184,6 +213,8 @@ func (c *Conn) resetBoth() {
 	c.in.reset, c.out.reset = true, true
 	rt.Wake(c.in)
 	rt.Wake(c.out)
+	rt.Wake(&c.in.space)
+	rt.Wake(&c.out.space)
 }
 
 // Reset injects a connection reset seen by both ends.
@@ -201,6 +232,8 @@ func (c *Conn) Close() error {
 	c.in.closed = true
 	rt.Wake(c.in)
 	rt.Wake(c.out)
+	rt.Wake(&c.in.space)
+	rt.Wake(&c.out.space)
 	return nil
 }
 
